@@ -27,10 +27,7 @@ Binz(b, a, r) == CASE b = "none" -> r
                    [] b = "ge2"  -> IF r >= 2 THEN 1 ELSE 0
 
 (* converted rewards of arm a in batch cb, in row order *)
-RECURSIVE OfArmFrom(_, _, _)
-OfArmFrom(cb, a, i) == IF i > Len(cb) THEN <<>>
-                       ELSE (IF cb[i].a = a THEN <<cb[i].c>> ELSE <<>>) \o OfArmFrom(cb, a, i + 1)
-OfArm(cb, a) == OfArmFrom(cb, a, 1)
+OfArm(cb, a) == LET own == SelectSeq(cb, LAMBDA h : h.a = a) IN [j \in 1..Len(own) |-> own[j].c]
 BatchLabels(cb) == {cb[i].a : i \in DOMAIN cb}
 
 AccAdd(ac, rs) == IF IsTS THEN [s |-> ac.s + ISumSeq(rs), f |-> ac.f + Len(rs) - ISumSeq(rs)]
